@@ -882,6 +882,46 @@ def database_route_check(ctx):
                  "(result.log_likelihood / instance raise AttributeError)", case, {"first": views[0], "second": views[1]})
 
 
+def force_overwrite_check(ctx):
+    """`force_pickle_overwrite: true` re-creates the output files of a completed fit; it does not sample it again and
+    the result returned is the completed one (oracle only: the model does not carry this setting)"""
+    import random as pyrandom
+
+    for kind in ("lbfgs", "dynesty_x1"):  # (in-process likelihood calls are counted)
+        sc = Scenario(ctx, kind, "uniform", False, True, False)
+        case = {"route": "force-pickle-overwrite", "search": kind, "history": [{"kill": None}, {"kill": None}]}
+        first = sc.fit(R.Snapshot(), trace=False)
+        if first["outcome"] != "ok":
+            ctx.hit("force-overwrite:first-fit-failed")
+            continue
+        from autoconf import conf
+        sc.world.activate()
+        out_cfg = conf.instance["general"]["output"]  # (the parsed configuration of this scratch world is cached)
+        out_cfg["force_pickle_overwrite"] = True
+        try:
+            second = sc.fit(first["final"], trace=False)
+            seen = bool(conf.instance["general"]["output"]["force_pickle_overwrite"])
+        finally:
+            out_cfg["force_pickle_overwrite"] = False
+        if not seen:
+            ctx.hit("force-overwrite:setting-not-in-effect")
+            continue
+        ctx.hit("force-overwrite-checked")
+        ctx.case({"route": "force-pickle-overwrite", "search": kind}, nontrivial=True)
+        if second["outcome"] != "ok":
+            ctx.fail("C06-rerun-raises-" + classify_error(second["etype"]), f"re-running a completed fit with force_pickle_overwrite raises {second['error']}", case)
+            continue
+        if second["calls"] > 0:
+            ctx.fail("C06-completed-fit-resampled", f"a completed fit was sampled again ({second['calls']} likelihood evaluations) because "
+                     "force_pickle_overwrite is on", case, {"calls": second["calls"]})
+        done = persisted(first["final"])
+        if done is not None:
+            diffs = view_matches(second["view"], done, reloaded=True)
+            if diffs:
+                ctx.fail("C06-completed-result-differs", "the result returned for a completed fit (force_pickle_overwrite) differs from the "
+                         "persisted one: " + "; ".join(diffs), case)
+
+
 # ---------------------------------------------------------------------------------------------
 # entry points
 
@@ -1010,6 +1050,7 @@ def run(ctx):
         explore(sc, cfg, [], R.Snapshot(), None, budget, modes, depth, chain_points=chains)
         ctx.notes.setdefault("plan_seconds", {})[sc.name] = round(time.time() - t0, 1)
     database_route_check(ctx)
+    force_overwrite_check(ctx)
     real_kill_check(ctx, 1 if quick else 6)
     ctx.notes["known_witness_not_reproduced"] = sorted(
         k["id"] for k in ctx.known if k.get("status") == "known" and k["id"] not in ctx.known_hits)
@@ -1018,6 +1059,10 @@ def run(ctx):
 def replay(ctx, payload):
     case = payload if "history" in payload else (
         payload.get("case") or payload.get("disagreements", [{}])[0].get("case"))
+    if case.get("route") == "force-pickle-overwrite":
+        force_overwrite_check(ctx)
+        print(json.dumps({"failures": ctx.failures[:3]}, default=str)[:3000])
+        return
     if case.get("route") == "database":
         database_route_check(ctx)
         print(json.dumps({"failures": ctx.failures[:3]}, default=str)[:3000])
